@@ -183,11 +183,12 @@ def vtree():
         )
 
     raw = st.builds(
-        lambda nm, ws, attrs, kids: {"k": "tag", "name": nm, "ws": ws, "attrs": attrs, "kids": kids},
+        lambda nm, ws, attrs, kids, late: {"k": "tag", "name": nm, "ws": ws, "attrs": attrs, "kids": kids, "late": late},
         st.sampled_from(["script", "style"]),
         st.booleans(),
         attr,
         st.lists(rawleaf, max_size=3),
+        st.sampled_from([None, None, "append", "extend", "insert"]),
     )
     node = st.one_of(leaf, raw)
     for _ in range(2):
@@ -230,6 +231,20 @@ class _B:
             for m in vals:
                 attrs.append({name: h.HTML(self.val(m, "attr" if len(vals) == 1 else "attr-merge"))})
         kids = [self.node(c) for c in r["kids"]]
+        late = r.get("late")
+        if late:
+            # children added after construction (append / extend / insert), not through the constructor
+            self.kinds.add("late-" + late)
+            t = h.Tag(r["name"], *attrs, _add_ws=r["ws"])
+            if late == "append":
+                for kd in kids:
+                    t.append(kd)
+            elif late == "extend":
+                t.extend(kids)
+            else:
+                for i, kd in enumerate(kids):
+                    t.insert(i, kd)
+            return t
         return h.Tag(r["name"], *attrs, *kids, _add_ws=r["ws"])
 
 
@@ -301,7 +316,7 @@ CLAUSES = [
         quick=600,
         thorough=15000,
         shards_quick=4,
-        required=("slot:html", "slot:repr", "slot:rawtext", "slot:rawhtml", "slot:attr", "slot:attr-merge", "prior-plain-render", "long-markup"),
+        required=("slot:html", "slot:repr", "slot:rawtext", "slot:rawhtml", "slot:attr", "slot:attr-merge", "prior-plain-render", "long-markup", "slot:late-append", "slot:late-insert"),
         rule="see RULE",
     ),
 ]
